@@ -60,6 +60,14 @@ SITES = [
     dict(id='rebate-phaseout-start', kind='cmp', line={2021: '1040_recovery_rebate_credit_wkst.9_checkbox'}, amount=['v|1040.11'], official='REBATE_START', selectors=[S], ops=['>']),
     dict(id='rebate-phaseout-end', kind='cmp', line={2021: '1040_recovery_rebate_credit_wkst.10_checkbox'}, amount=['v|1040_recovery_rebate_credit_wkst.9'], official='REBATE_END', selectors=[S], ops=['>']),
     dict(id='rebate-phaseout-range', kind='ratio', line={2021: '1040_recovery_rebate_credit_wkst.11'}, official='REBATE_RANGE', selectors=[S], symbol='v|1040_recovery_rebate_credit_wkst.10'),
+    dict(id='rebate-base-both-ssn', kind='echo', line={2021: '1040_recovery_rebate_credit_wkst.6'}, official='REBATE_BASE_BOTH_SSN', selectors=[S],
+         assume=[('v|1040_recovery_rebate_credit_wkst.2', True)]),
+    dict(id='rebate-base-armed-forces', kind='echo', line={2021: '1040_recovery_rebate_credit_wkst.6'}, official='REBATE_BASE_ARMED_FORCES', selectors=[S], statuses=['MarriedFilingJointly'],
+         assume=[('v|1040_recovery_rebate_credit_wkst.2', False), ('v|1040_recovery_rebate_credit_wkst.3', True)]),
+    dict(id='rebate-base-one-ssn', kind='echo', line={2021: '1040_recovery_rebate_credit_wkst.6'}, official='REBATE_BASE_ONE_SSN', selectors=[S], statuses=['MarriedFilingJointly'],
+         assume=[('v|1040_recovery_rebate_credit_wkst.2', False), ('v|1040_recovery_rebate_credit_wkst.3', False), ('v|1040_recovery_rebate_credit_wkst.4', True)]),
+    dict(id='rebate-base-dependents-only', kind='echo', line={2021: '1040_recovery_rebate_credit_wkst.6'}, official='REBATE_BASE_DEPENDENTS_ONLY', selectors=[S],
+         assume=[('v|1040_recovery_rebate_credit_wkst.2', False), ('v|1040_recovery_rebate_credit_wkst.3', False), ('v|1040_recovery_rebate_credit_wkst.4', False), ('v|1040_recovery_rebate_credit_wkst.5', True)]),
     dict(id='rebate-per-dependent', kind='coef', line={2021: '1040_recovery_rebate_credit_wkst.7'}, official='REBATE_PER_PERSON', symbol='i|1040_recovery_rebate_credit_wkst.dependents_ssn_before_due_date'),
     # --- Schedule B required above $1,500 of interest / ordinary dividends (Form 1040 lines 2b, 3b)
     dict(id='schedule-b-interest-threshold', kind='const', line='1040.2b', mentions=['1099-int:{n}.box_1'], official='SCHED_B_THRESHOLD', selectors=[]),
